@@ -98,6 +98,18 @@ class FakeTransport(asyncio.Transport):
             self._force_close(WRITE_ERRORS[self.fail_kind % len(WRITE_ERRORS)]())
             return
         self.net.ev("write", self.cid, bytes(data))
+        if self.paused and not isinstance(data, bytes):
+            # a real transport that cannot send right away keeps the OBJECT it was given (asyncio 3.12 does not copy): what finally
+            # leaves is that object's content at that later time
+            if not hasattr(self, "held"):
+                self.held = []
+            self.held.append((data, bytes(data)))
+
+    def check_held(self):
+        for obj, snap in getattr(self, "held", []):
+            if bytes(obj) != snap:
+                self.net.ev("mutated", self.cid, snap, bytes(obj))
+        self.held = []
 
     def _force_close(self, exc):
         if self.conn_lost:
@@ -178,6 +190,7 @@ class FakeTransport(asyncio.Transport):
 
     def unblock_writes(self):
         if self.paused:
+            self.check_held()
             self.paused = False
             if not self.lost_called:
                 self.proto.resume_writing()
@@ -219,6 +232,8 @@ class Net:
             # the next connection accepts but its first write hits a fatal socket error (peer already gone)
             t.fail_writes = True
             self.ev("envFailWrites", t.cid, 1)
+            if getattr(self, "fail_first_once", False):
+                self.fail_first_write = self.fail_first_once = False      # only the next ONE connection
         proto.connection_made(t)
         if getattr(self, "block_first", False):
             # a congested link from the first byte: the transport tells the protocol to pause writing at once
